@@ -175,6 +175,12 @@ func build(stmt *Statement, parent reflect.Value, types *typeDictionary) (v refl
 	for _, ss := range stmt.statements {
 		found[ss.Keyword] = true
 		fn := y.funcs[ss.Keyword]
+		switch ss.Keyword {
+		case "Name", "Statement", "Parent":
+			// These are not keywords: the functions filed under
+			// them fill in the node from the statement itself.
+			fn = nil
+		}
 		switch {
 		case fn != nil:
 			// Normal case, the keyword is known.
